@@ -3,7 +3,8 @@
    Model/CfiRun.v parse_insn.  insn_agree (Proofs/GenAgreeCfiTable.v) runs the model on the byte followed by a benign
    operand tail and compares the constructor name with gen_cfi_variant, the reading of the regenerated tables. *)
 From Coq Require Import List NArith Bool String.
-Require Import GV.Proofs.GenSweep GV.Proofs.GenAgreeCfiTable.
+From Coq.Strings Require Import Byte.
+Require Import GV.Base.Res GV.Base.Byt GV.Proofs.GenSweep GV.Model.CfiRun GV.Proofs.GenAgreeCfiTable.
 Require GV.Gen.CfiTable GV.Gen.Constants.
 Import ListNotations.
 Local Open Scope N_scope.
@@ -20,6 +21,13 @@ Theorem c06_tie_cfi_table_keys :
   forallb (fun k => N.land k CfiTable.high_bits_mask =? 0) (map fst CfiTable.low_table) = true.
 Proof. exact GenAgreeCfiTable.gen_cfi_table_keys. Qed.
 
+(* for ALL operand bytes, byte orders, address sizes, offsets, vendors and both build modes: whenever the model decodes an instruction, its variant is the one CallFrameInstruction::parse builds for that byte *)
+Theorem c06_tie_cfi_table_all_inputs :
+  forall dbg be asize aarch64 off b t i r',
+  parse_insn dbg be asize aarch64 off (b :: t) = Ok (i, r') ->
+  gen_cfi_variant aarch64 (b2n b) = Some (insn_ctor i).
+Proof. exact GenAgreeCfiTable.gen_cfi_table_all_inputs. Qed.
+
 (* statement pins *)
 Check c06_tie_cfi_table :
   forall aarch64 b, b < 256 -> insn_agree aarch64 b = true.
@@ -27,3 +35,7 @@ Check c06_tie_cfi_table_keys :
   lookup_hi 0 CfiTable.high_table = None /\
   forallb (fun k => existsb (N.eqb k) Constants.DwCfa_values) (map fst CfiTable.high_table ++ map fst CfiTable.low_table) = true /\
   forallb (fun k => N.land k CfiTable.high_bits_mask =? 0) (map fst CfiTable.low_table) = true.
+Check c06_tie_cfi_table_all_inputs :
+  forall dbg be asize aarch64 off b t i r',
+  parse_insn dbg be asize aarch64 off (b :: t) = Ok (i, r') ->
+  gen_cfi_variant aarch64 (b2n b) = Some (insn_ctor i).
